@@ -1,39 +1,277 @@
 package gose
 
 import (
+	"fmt"
 	"go/token"
 	"go/types"
 
 	"golang.org/x/tools/go/ssa"
 )
 
-// Minimal sequential models of synchronisation; the cooperative scheduler (goroutines) is layered on top in sched2.go.
+// Cooperative goroutines (DESIGN §3.6). Each target goroutine runs on its own Go goroutine, but only the holder of the
+// baton executes; control changes hands only at synchronisation operations (mutex, channel, cond, select, WaitGroup) and
+// when a goroutine blocks or ends. Which runnable goroutine continues is a decision point of the path (explored
+// exhaustively up to a preemption bound). This gives sequentially consistent interleavings at lock granularity.
+
+type gor struct {
+	id     int
+	wake   chan struct{}
+	done   bool
+	ready  func() bool // nil = runnable; otherwise blocked until ready() holds
+	why    string
+	depth  int
+	top    *frame
+	isMain bool
+}
 
 type sched struct {
-	locked map[*Value]int // mutex -> 1 write-locked, -n read-locked... (n readers as negative count)
+	locked   map[*Value]int // mutex -> 1 write-locked, -n read-locked
+	gs       []*gor
+	cur      *gor
+	abort    interface{} // pathEnd / targetPanic / engine panic to be re-raised on the main goroutine
+	dying    bool
+	preempts int
+	condQ    map[*Value][]*gor
+	condSig  map[*gor]bool
+	wg       map[*Value]int64
+	onQuiet  []Value
 }
+
+type dieNow struct{}
 
 func (p *Path) sch() *sched {
 	if p.sched == nil {
-		p.sched = &sched{locked: map[*Value]int{}}
+		main := &gor{id: 0, wake: make(chan struct{}, 1), isMain: true}
+		p.sched = &sched{locked: map[*Value]int{}, gs: []*gor{main}, cur: main, condQ: map[*Value][]*gor{}, condSig: map[*gor]bool{}, wg: map[*Value]int64{}}
 	}
 	return p.sched
 }
 
+func (p *Path) maxPreempt() int {
+	if v, ok := p.eng.cfg.Params["preempt"]; ok {
+		return v
+	}
+	return 2
+}
+
+// choose: an n-way scheduler decision recorded in the decision vector (no solver involved).
+func (p *Path) choose(n int) int {
+	if n <= 1 {
+		return 0
+	}
+	p.res.Decisions++
+	i := len(p.trace)
+	if i < len(p.prefix) {
+		d := p.prefix[i]
+		p.trace = append(p.trace, d)
+		return int(d.K)
+	}
+	for k := n - 1; k >= 1; k-- {
+		alt := make([]Decision, i+1)
+		copy(alt, p.trace)
+		alt[i] = Decision{Forced: true, K: uint64(k), HasK: true}
+		p.pending = append(p.pending, alt)
+	}
+	p.res.Forks += n - 1
+	p.trace = append(p.trace, Decision{Forced: true, K: 0, HasK: true})
+	return 0
+}
+
+func (s *sched) runnable(except *gor) []*gor {
+	var out []*gor
+	for _, g := range s.gs {
+		if g.done || g == except {
+			continue
+		}
+		if g.ready == nil || g.ready() {
+			out = append(out, g)
+		}
+	}
+	return out
+}
+
+// switchTo hands the baton to next and parks the current goroutine until it is woken again.
+func (p *Path) switchTo(next *gor) {
+	s := p.sched
+	cur := s.cur
+	if next == cur {
+		return
+	}
+	cur.depth, cur.top = p.depth, p.top
+	s.cur = next
+	next.ready = nil
+	next.wake <- struct{}{}
+	<-cur.wake
+	p.resumed(cur)
+}
+
+func (p *Path) resumed(g *gor) {
+	s := p.sched
+	p.depth, p.top = g.depth, g.top
+	if s.dying && !g.isMain {
+		panic(dieNow{})
+	}
+	if g.isMain && s.abort != nil {
+		a := s.abort
+		s.abort = nil
+		panic(a)
+	}
+}
+
+// yield: a scheduling point where the current goroutine stays runnable.
+func (p *Path) yield(fr *frame) {
+	if p.sched == nil || len(p.sched.gs) == 1 || p.spec {
+		return
+	}
+	s := p.sched
+	others := s.runnable(s.cur)
+	if len(others) == 0 || s.preempts >= p.maxPreempt() {
+		return
+	}
+	k := p.choose(len(others) + 1)
+	if k == 0 {
+		return
+	}
+	s.preempts++
+	p.switchTo(others[k-1])
+}
+
+// block parks the current goroutine until ready() holds.
+func (p *Path) block(fr *frame, ready func() bool, why string) {
+	if p.spec {
+		panic(specAbort{})
+	}
+	s := p.sch()
+	cur := s.cur
+	for !ready() {
+		cur.ready, cur.why = ready, why
+		others := s.runnable(cur)
+		if len(others) == 0 {
+			p.deadlock()
+		}
+		p.switchTo(others[p.choose(len(others))])
+	}
+	cur.ready = nil
+}
+
+// deadlock: every goroutine is blocked (or done). The path ends QUIESCENT after the registered quiescence checks.
+func (p *Path) deadlock() {
+	s := p.sched
+	var why []string
+	for _, g := range s.gs {
+		if !g.done {
+			why = append(why, fmt.Sprintf("g%d:%s", g.id, g.why))
+		}
+	}
+	p.raiseOnMain(pathEnd{"quiescent", fmt.Sprintf("all goroutines blocked (%v)", why)})
+}
+
+// raiseOnMain ends the path with r; when called on a secondary goroutine the baton goes to main, which re-raises.
+func (p *Path) raiseOnMain(r interface{}) {
+	s := p.sched
+	if s.cur.isMain {
+		panic(r)
+	}
+	s.abort = r
+	main := s.gs[0]
+	cur := s.cur
+	cur.done = true
+	s.cur = main
+	main.wake <- struct{}{}
+	panic(dieNow{}) // unwinds this goroutine's interpreter stack
+}
+
+func (p *Path) spawn(fr *frame, pos token.Pos, fn Value, args []Value) {
+	s := p.sch()
+	g := &gor{id: len(s.gs), wake: make(chan struct{}, 1)}
+	s.gs = append(s.gs, g)
+	if len(s.gs) > 16 {
+		p.unsupported("more than 16 goroutines")
+	}
+	go func() {
+		<-g.wake
+		defer func() {
+			r := recover()
+			if _, die := r.(dieNow); die {
+				return
+			}
+			if r != nil {
+				// uncaught target panic, path end or engine error inside a goroutine: re-raise on main
+				if tp, ok := r.(targetPanic); ok {
+					r = tp
+				}
+				g.done = true
+				func() {
+					defer func() { recover() }()
+					p.raiseOnMain(r)
+				}()
+				return
+			}
+		}()
+		if s.dying {
+			return
+		}
+		p.depth, p.top = 0, nil
+		p.call(nil, pos, fn, args)
+		g.done = true
+		// goroutine finished: pass the baton on
+		others := s.runnable(g)
+		if len(others) == 0 {
+			func() {
+				defer func() { recover() }()
+				p.deadlock()
+			}()
+			return
+		}
+		next := others[p.choose(len(others))]
+		s.cur = next
+		next.ready = nil
+		next.wake <- struct{}{}
+	}()
+}
+
+// finishSched is called when the harness function returns (Go semantics: the program ends, other goroutines die).
+func (p *Path) finishSched() { p.killGoroutines() }
+
+func (p *Path) killGoroutines() {
+	s := p.sched
+	if s == nil {
+		return
+	}
+	s.dying = true
+	for _, g := range s.gs {
+		if !g.isMain && !g.done {
+			g.done = true
+			select {
+			case g.wake <- struct{}{}:
+			default:
+			}
+		}
+	}
+}
+
+func (p *Path) wakeAll() {}
+
+// ---- mutexes ----
+
 func (p *Path) mutexLock(fr *frame, m Value, read bool) {
 	mu := m.(*Value)
 	s := p.sch()
-	for {
+	p.yield(fr)
+	free := func() bool {
 		st := s.locked[mu]
-		if read && st <= 0 {
-			s.locked[mu] = st - 1
-			return
+		if read {
+			return st <= 0
 		}
-		if !read && st == 0 {
-			s.locked[mu] = 1
-			return
-		}
-		p.block(fr, "mutex")
+		return st == 0
+	}
+	if !free() {
+		p.block(fr, free, "mutex")
+	}
+	if read {
+		s.locked[mu]--
+	} else {
+		s.locked[mu] = 1
 	}
 }
 
@@ -62,29 +300,249 @@ func (p *Path) mutexUnlock(fr *frame, pos token.Pos, m Value, read bool) {
 		}
 		s.locked[mu] = 0
 	}
-	p.wakeAll()
+	p.yield(fr)
 }
 
-func (p *Path) block(fr *frame, why string) {
-	p.abort("unsupported", "goroutine would block on %s (no scheduler)", why)
+// ---- condition variables ----
+
+func condLocker(c Value) Value {
+	st := (*c.(*Value)).(Struct)
+	for _, f := range st {
+		if itf, ok := f.(Iface); ok && itf.T != nil {
+			return itf.V
+		}
+	}
+	return nil
 }
-func (p *Path) wakeAll()          {}
-func (p *Path) yield(fr *frame)   {}
-func (p *Path) finishSched()      {}
-func (p *Path) spawn(fr *frame, pos token.Pos, fn Value, args []Value) {
-	p.unsupported("go statement at %s", p.pos(pos))
+
+func (p *Path) condWait(fr *frame, pos token.Pos, c Value) {
+	s := p.sch()
+	cv := c.(*Value)
+	l := condLocker(c)
+	if l == nil {
+		p.unsupported("sync.Cond without a Locker")
+	}
+	p.mutexUnlockQuiet(l)
+	g := s.cur
+	s.condQ[cv] = append(s.condQ[cv], g)
+	p.block(fr, func() bool { return s.condSig[g] }, "cond")
+	delete(s.condSig, g)
+	p.mutexLock(fr, l, false)
 }
-func (p *Path) chanSend(fr *frame, c *Chan, v Value) { p.unsupported("channel send") }
+
+func (p *Path) mutexUnlockQuiet(m Value) {
+	mu := m.(*Value)
+	p.sch().locked[mu] = 0
+}
+
+func (p *Path) condSignal(fr *frame, c Value, all bool) {
+	s := p.sch()
+	cv := c.(*Value)
+	q := s.condQ[cv]
+	if len(q) == 0 {
+		return
+	}
+	if all {
+		for _, g := range q {
+			s.condSig[g] = true
+		}
+		s.condQ[cv] = nil
+		return
+	}
+	s.condSig[q[0]] = true
+	s.condQ[cv] = q[1:]
+}
+
+// ---- wait groups ----
+
+func (p *Path) wgAdd(fr *frame, pos token.Pos, wg Value, d *Term) {
+	s := p.sch()
+	k := wg.(*Value)
+	if d.Op != OpConst {
+		p.unsupported("WaitGroup.Add with a symbolic delta")
+	}
+	s.wg[k] += sext64(d.C, d.W)
+	if s.wg[k] < 0 {
+		panic(targetPanic{Iface{T: types.Typ[types.String], V: mkStr("sync: negative WaitGroup counter")}, p.pos(pos)})
+	}
+}
+
+func (p *Path) wgWait(fr *frame, wg Value) {
+	s := p.sch()
+	k := wg.(*Value)
+	p.yield(fr)
+	p.block(fr, func() bool { return s.wg[k] == 0 }, "waitgroup")
+}
+
+// ---- channels ----
+
+type sendReq struct {
+	v     Value
+	taken bool
+	g     *gor
+}
+
+func (p *Path) chanSend(fr *frame, c *Chan, v Value) {
+	if c == nil {
+		p.block(fr, func() bool { return false }, "send on nil channel")
+	}
+	p.yield(fr)
+	if c.closed {
+		panic(targetPanic{Iface{T: types.Typ[types.String], V: mkStr("send on closed channel")}, "chan send"})
+	}
+	if len(c.buf) < c.cap {
+		c.buf = append(c.buf, copyVal(v))
+		return
+	}
+	req := &sendReq{v: copyVal(v), g: p.sch().cur}
+	c.sendq = append(c.sendq, req)
+	p.block(fr, func() bool { return req.taken || c.closed }, "chan send")
+	if !req.taken {
+		panic(targetPanic{Iface{T: types.Typ[types.String], V: mkStr("send on closed channel")}, "chan send"})
+	}
+}
+
+func (c *Chan) recvReady() bool { return len(c.buf) > 0 || len(c.sendq) > 0 || c.closed }
+
+func (c *Chan) take() (Value, bool) {
+	if len(c.buf) > 0 {
+		v := c.buf[0]
+		c.buf = c.buf[1:]
+		if len(c.sendq) > 0 { // a blocked sender moves into the freed buffer slot
+			r := c.sendq[0]
+			c.sendq = c.sendq[1:]
+			c.buf = append(c.buf, r.v)
+			r.taken = true
+		}
+		return v, true
+	}
+	if len(c.sendq) > 0 {
+		r := c.sendq[0]
+		c.sendq = c.sendq[1:]
+		r.taken = true
+		return r.v, true
+	}
+	return nil, false // closed
+}
+
 func (p *Path) chanRecv(fr *frame, c *Chan, commaOk bool, t types.Type) Value {
-	p.unsupported("channel receive")
-	return nil
+	if c == nil {
+		p.block(fr, func() bool { return false }, "receive from nil channel")
+	}
+	p.yield(fr)
+	if !c.recvReady() {
+		c.recvWaiting++
+		p.block(fr, c.recvReady, "chan receive")
+		c.recvWaiting--
+	}
+	v, ok := c.take()
+	if !ok {
+		if commaOk {
+			v = p.zero(t.(*types.Tuple).At(0).Type())
+		} else {
+			v = p.zero(t)
+		}
+	}
+	if commaOk {
+		return Tuple{v, p.st.Bool(ok)}
+	}
+	return v
 }
-func (p *Path) chanClose(fr *frame, pos token.Pos, c *Chan) { p.unsupported("channel close") }
+
+func (p *Path) chanClose(fr *frame, pos token.Pos, c *Chan) {
+	if c == nil {
+		panic(targetPanic{Iface{T: types.Typ[types.String], V: mkStr("close of nil channel")}, p.pos(pos)})
+	}
+	if c.closed {
+		panic(targetPanic{Iface{T: types.Typ[types.String], V: mkStr("close of closed channel")}, p.pos(pos)})
+	}
+	c.closed = true
+}
+
 func (p *Path) selectStmt(fr *frame, instr *ssa.Select) Value {
-	p.unsupported("select")
-	return nil
+	p.yield(fr)
+	type st struct {
+		c    *Chan
+		send bool
+		v    Value
+	}
+	var states []st
+	for _, s := range instr.States {
+		c, _ := fr.get(s.Chan).(*Chan)
+		x := st{c: c, send: s.Dir == types.SendOnly}
+		if x.send {
+			x.v = fr.get(s.Send)
+		}
+		states = append(states, x)
+	}
+	readyIdx := func() []int {
+		var r []int
+		for i, s := range states {
+			if s.c == nil {
+				continue
+			}
+			if s.send {
+				if s.c.closed || len(s.c.buf) < s.c.cap || s.c.recvWaiting > 0 {
+					r = append(r, i)
+				}
+			} else if s.c.recvReady() {
+				r = append(r, i)
+			}
+		}
+		return r
+	}
+	r := readyIdx()
+	if len(r) == 0 {
+		if !instr.Blocking {
+			return p.selectResult(instr, -1, nil, false)
+		}
+		for _, s := range states {
+			if s.c != nil && !s.send {
+				s.c.recvWaiting++
+			}
+		}
+		p.block(fr, func() bool { return len(readyIdx()) > 0 }, "select")
+		for _, s := range states {
+			if s.c != nil && !s.send {
+				s.c.recvWaiting--
+			}
+		}
+		r = readyIdx()
+	}
+	i := r[p.choose(len(r))]
+	s := states[i]
+	if s.send {
+		if s.c.closed {
+			panic(targetPanic{Iface{T: types.Typ[types.String], V: mkStr("send on closed channel")}, "select"})
+		}
+		if len(s.c.buf) < s.c.cap {
+			s.c.buf = append(s.c.buf, copyVal(s.v))
+		} else {
+			// hand-off to a receiver parked in a select: buffer it for the receiver to pick up
+			s.c.buf = append(s.c.buf, copyVal(s.v))
+		}
+		return p.selectResult(instr, i, nil, false)
+	}
+	v, ok := s.c.take()
+	return p.selectResult(instr, i, v, ok)
 }
-func (p *Path) wgAdd(fr *frame, pos token.Pos, wg Value, d *Term) { p.unsupported("WaitGroup") }
-func (p *Path) wgWait(fr *frame, wg Value)                        { p.unsupported("WaitGroup") }
-func (p *Path) condWait(fr *frame, pos token.Pos, c Value)        { p.unsupported("Cond.Wait") }
-func (p *Path) condSignal(fr *frame, c Value, all bool)           {}
+
+// selectResult builds the (index, recvOk, recv_0, ..., recv_n-1) tuple of an ssa.Select.
+func (p *Path) selectResult(instr *ssa.Select, idx int, v Value, ok bool) Value {
+	tup := instr.Type().(*types.Tuple)
+	out := make(Tuple, tup.Len())
+	out[0] = p.st.BV(64, uint64(int64(idx)))
+	out[1] = p.st.Bool(ok)
+	k := 2
+	for i, s := range instr.States {
+		if s.Dir == types.RecvOnly {
+			if i == idx && ok {
+				out[k] = v
+			} else {
+				out[k] = p.zero(tup.At(k).Type())
+			}
+			k++
+		}
+	}
+	return out
+}
